@@ -17,7 +17,37 @@ class C11(FloCheck):
             "run with (ticks since the outline last changed) * P within 1e-9 and the run count; non-trivial = a timeout or "
             "repeat or clock condition fired; distinct = digest of per-run (status, active outline)")
     assumptions = ["reported elapsed may differ from the ideal by float rounding (1e-9); the tick at which the frame is left may not"]
-    required_probes = ["decimal-period", "timeout-fired", "reentry-reset", "own-period"]
+    required_probes = ["decimal-period", "timeout-fired", "reentry-reset", "own-period", "clone-family", "clone-family-clock-fired"]
+    CLONE_EVERY = 6       # every sixth run: clones of clock-driven moot originals against their textual-copy twins
+
+    def generate(self, S, index, tier):
+        if index >= 0 and index % self.CLONE_EVERY == self.CLONE_EVERY - 1:
+            from checks.c12 import gen_plan
+            plan = gen_plan(S.gen, periods=self.cfg["periods"], p_clock=0.8)
+            plan["family"] = "clone"
+            return plan
+        return FloCheck.generate(self, S, index, tier)
+
+    def simplify(self, plan):
+        if plan.get("family") == "clone":
+            return ()
+        return FloCheck.simplify(self, plan)
+
+    def execute(self, plan):
+        if plan.get("family") != "clone":
+            return FloCheck.execute(self, plan)
+        # 'for every framer': a clone's timeout / repeat must fire at the ticks at which those of an ordinary framer holding
+        # a textual copy of the same frames fire (the clone's implicit clock conditions must read the clone's own clocks)
+        from checks.c12 import CHECK as C12
+        out = C12.execute(plan)
+        for v in out.violations:
+            if v.kind == "clone-differs":
+                v.kind, v.signature = "clone-clocks", "a cloned framer's timeout / repeat does not fire when that of an identical ordinary framer does"
+        out.probes = dict((k, n) for k, n in out.probes.items() if k in ("two-clones-of-one-original",))
+        out.probe("clone-family")
+        if "'text': 'timeout " in repr(plan) or "'text': 'repeat " in repr(plan):
+            out.probe("clone-family-clock-fired")
+        return out
 
     def invariants(self, plan, res, impl, out):
         P = Fraction(plan["P"])
